@@ -31,7 +31,8 @@ def RP(cls=None):
     return {"replay": {"module": N_, "func": "replay_fll_roundtrip", "kwargs": kw, "vars": {}}, "sat_final": True}
 
 SKIP_TERMS = {"Activated": "run-time value, not part of an FLL document", "Aggregated": "run-time value, not part of an FLL document",
-              "Discrete": "variable-length pair list (to_list/to_xy): bounded stand-in", "Linear": "variable-length coefficient list: bounded stand-in",
+              "Discrete": "variable-length pair list (to_list/to_xy): symbolic round trip for 1-3 pairs (level B, bounded length) + bounded stand-in",
+              "Linear": "variable-length coefficient list: symbolic round trip for 0, 1, 3 coefficients (level B, bounded length) + bounded stand-in",
               "Function": "the parameter is the formula text itself (identity); formula parsing is C17"}
 
 
@@ -256,6 +257,185 @@ def verify_rule_weight(run):
     run.add(static(f"{fq}/paths", n_ok == 2, f"{n_ok} printing path(s) (with and without the weight)", fn=fq))
 
 
+# ------------------------------------------------------------------------------------------------ Linear / Discrete: variable-length parameter lists
+class PairsV:
+    """Discrete.values: an (m, 2) array as a concrete-length list of (x, y) pairs"""
+
+    def __init__(s, pairs):
+        s.pairs = tuple(pairs)
+
+
+class ListTermExec(TokExec):
+    """TokExec + the list/array idioms of Linear and Discrete (lists of CONCRETE length with symbolic elements)"""
+
+    def ev_Call(s, p, e):
+        t = ast.unparse(e.func)
+        if t == "self.values.flatten().tolist" and not e.args:
+            v = s.ev(p, ast.parse("self.values").body[0].value)
+            if isinstance(v, PairsV):
+                out = []
+                for x, y in v.pairs:
+                    out += [x, y]
+                return PyL(out)
+        if t == "array" and len(e.args) == 1:
+            v = s.ev(p, e.args[0])
+            if isinstance(v, PyL) and all(isinstance(x, (Tok, Num, float, int)) for x in v.items):
+                # numpy.array(list of numeric strings, dtype=float): every element parsed like float() (A-NP); ValueError when one is not a number
+                out = []
+                for x in v.items:
+                    if isinstance(x, Tok):
+                        from pyvc.tokexec import pf, pf_ok
+                        q = Path(p.env, list(p.pc)); q.pc.append(z3.Not(pf_ok(x.t))); s.raised.append((q, "ValueError"))
+                        p.pc += [pf_ok(x.t), canon(pf(x.t))]
+                        out.append(Num(xr2x(pf(x.t)), False, True))
+                    else:
+                        out.append(s.num(x, e))
+                return PyL(out)
+            if isinstance(v, PyL) and len(v.items) == 2 and all(isinstance(x, PyL) for x in v.items):
+                return ("matrix2", v.items[0], v.items[1])
+        if t in ("Discrete.to_xy",) and len(e.args) == 2:
+            fn = s.src.func("term", "Discrete.to_xy")
+            sub = type(s)(s.src, "term", s.ax)
+            sub.axioms, sub.seen_fmt, sub.raised = s.axioms, s.seen_fmt, s.raised
+            outs = sub.run(fn, {"x": s.ev(p, e.args[0]), "y": s.ev(p, e.args[1])}, pc=p.pc)
+            rets = [(v_, q) for k_, v_, q in outs if k_ == "return"]
+            for k_, v_, q in outs:
+                if k_ == "raise":
+                    s.raised.append((q, v_))
+            if len(rets) != 1:
+                raise Unsupported(f"Discrete.to_xy: {len(rets)} returning paths")
+            p.pc[:] = rets[0][1].pc
+            return rets[0][0]
+        return super().ev_Call(p, e)
+
+    def ev_Attribute(s, p, e):
+        if e.attr == "T":
+            v = s.ev(p, e.value)
+            if isinstance(v, tuple) and v and v[0] == "matrix2" and len(v[1].items) == len(v[2].items):
+                return PairsV(zip(v[1].items, v[2].items))
+        if e.attr == "shape":
+            v = s.ev(p, e.value)
+            if isinstance(v, PyL):
+                return ("shape", len(v.items))
+        if ast.unparse(e) == "settings.float_type":
+            return "float_type"
+        return super().ev_Attribute(p, e)
+
+    def ev_Compare(s, p, e):
+        if len(e.ops) == 1 and isinstance(e.ops[0], (ast.NotEq, ast.Eq)):
+            q = Path(p.env, p.pc)
+            try:
+                l, r = s.ev(q, e.left), s.ev(q, e.comparators[0])
+            except Unsupported:
+                l = r = None
+            if isinstance(l, tuple) and isinstance(r, tuple) and l and r and l[0] == r[0] == "shape":
+                return (l != r) if isinstance(e.ops[0], ast.NotEq) else (l == r)
+        return super().ev_Compare(p, e)
+
+    def ev_Subscript(s, p, e):
+        base = s.ev(Path(p.env, p.pc), e.value)
+        if isinstance(base, PyL) and isinstance(e.slice, ast.Slice):
+            lo = e.slice.lower.value if isinstance(e.slice.lower, ast.Constant) else 0
+            st = e.slice.step.value if isinstance(e.slice.step, ast.Constant) else 1
+            if e.slice.upper is None:
+                return PyL(base.items[lo::st])
+        return super().ev_Subscript(p, e)
+
+    def binop(s, op, l, r, e, p):
+        if isinstance(op, ast.Mod) and isinstance(l, int) and isinstance(r, int):
+            return l % r
+        return super().binop(op, l, r, e, p)
+
+    def stmt(s, p, n):
+        if isinstance(n, ast.Delete) and len(n.targets) == 1 and isinstance(n.targets[0], ast.Subscript) and isinstance(n.targets[0].value, ast.Name) \
+                and isinstance(p.env.get(n.targets[0].value.id), PyL) and ast.unparse(n.targets[0].slice) == "-1":
+            nm = n.targets[0].value.id
+            p.env[nm] = PyL(p.env[nm].items[:-1])
+            return [(p, None)]
+        return super().stmt(p, n)
+
+
+def list_term_roundtrip(run, cls, k):
+    """Linear with k coefficients / Discrete with k pairs: print -> configure (on the constructor-default object) -> print again"""
+    src = run.src
+    fq = f"term.{cls}[{k}]"
+    m_p, m_c = src.resolve_method(cls, "parameters"), src.resolve_method(cls, "configure")
+    run.under_contract(m_p[0], f"{m_p[1]}.parameters", m_p[2]); run.under_contract(m_c[0], f"{m_c[1]}.configure", m_c[2])
+    rp = RP(f"fll-component:{cls}")
+    nums, wf = [], []
+    for i in range(k * (2 if cls == "Discrete" else 1)):
+        x, w = xr.sym(f"v{i}")
+        nums.append(Num(x, False, True)); wf += [w, canon(x2xr(x))]
+    h, wh = xr.sym("height")
+    if cls == "Linear":
+        before = {"name": "t", "height": 1.0, "coefficients": PyL(nums), "engine": None}
+        default = {"name": "", "height": 1.0, "coefficients": PyL(()), "engine": None}
+    else:
+        before = {"name": "t", "height": Num(h, False, True), "values": PairsV(zip(nums[0::2], nums[1::2]))}
+        default = {"name": "", "height": 1.0, "values": PairsV(())}
+        wf += [wh, canon(x2xr(h))]
+
+    def run_params(fields, pc, shared=None, cases=None):
+        outs = []
+        for c in (cases or [z3.BoolVal(True)]):
+            ex = ListTermExec(src, m_p[0], xr.Ax(), selfobj=Obj(cls, dict(fields)))
+            if shared is not None:
+                ex.axioms, ex.seen_fmt = shared.axioms, shared.seen_fmt
+            try:
+                outs += [(ex, o) for o in ex.run(m_p[2], {"self": ex.selfobj}, pc=list(pc) + [c])]
+            except MultiReturn as mr:
+                if cases is None:
+                    return run_params(fields, pc, shared, mr.cases)
+                raise
+        return outs
+    try:
+        first = run_params(before, wf)
+    except (Unsupported, MultiReturn) as ex_:
+        run.add(undecided(f"{fq}.parameters/subset", f"outside the verified subset: {ex_}", fn=fq, meta=rp, level="B")); return
+    shared = first[0][0] if first else None
+    n_ok = 0
+    for k1, (ex, (kind1, val1, p1)) in enumerate(first):
+        T1 = val1 if isinstance(val1, Text) else Text([val1]) if isinstance(val1, Tok) else Text([]) if val1 == "" else None
+        if kind1 != "return" or T1 is None:
+            run.add(Obl(f"{fq}.parameters/returns_text[path{k1}]", p1.pc + ex.axioms, z3.BoolVal(False), fn=fq, meta=rp, level="B")); continue
+        ex2 = ListTermExec(src, m_c[0], xr.Ax(), selfobj=Obj(cls, dict(default)))
+        ex2.axioms, ex2.seen_fmt = shared.axioms, shared.seen_fmt
+        try:
+            outs2 = ex2.run(m_c[2], {"self": ex2.selfobj, "parameters": T1}, pc=list(p1.pc))
+        except (Unsupported, MultiReturn) as ex_:
+            run.add(undecided(f"{fq}.configure/subset[path{k1}]", f"outside the verified subset: {ex_}", fn=fq, meta=rp, level="B")); continue
+        for j, (q, exc) in enumerate(ex2.raised):
+            run.add(Obl(f"{fq}.configure/accepts_own_output[path{k1}][raise{j}:{exc}]", q.pc + shared.axioms + str_distinct(), z3.BoolVal(False), fn=fq, meta=rp, level="B"))
+        for k2, (kind2, val2, p2) in enumerate(outs2):
+            tag = f"[path{k1}.{k2}]"
+            if kind2 != "return":
+                run.add(Obl(f"{fq}.configure/accepts_own_output{tag}[raise:{val2}]", p2.pc + shared.axioms + str_distinct(), z3.BoolVal(False), fn=fq, meta=rp, level="B")); continue
+            after = p2.env.get("__self_fields__", ex2.selfobj.fields)
+            got = after.get("coefficients") if cls == "Linear" else after.get("values")
+            flat = list(got.items) if isinstance(got, PyL) else [z for pr in got.pairs for z in pr] if isinstance(got, PairsV) else None
+            goals = []
+            if flat is None or len(flat) != len(nums):
+                goals.append(z3.BoolVal(False))
+            else:
+                for a, b in zip(flat, nums):
+                    tb = x2xr(b.x); shared.ax_fmt(tb)
+                    goals.append(x2xr(ex2.num(a).x) == rnd(tb))
+            run.add(Obl(f"{fq}/configure_restores_every_element{tag}", p2.pc + shared.axioms + str_distinct(), z3.And(*goals) if goals else z3.BoolVal(True), fn=fq, meta=rp, level="B"))
+            try:
+                third = run_params(after, p2.pc, shared)
+            except (Unsupported, MultiReturn) as ex_:
+                run.add(undecided(f"{fq}.parameters/subset.second{tag}", f"{ex_}", fn=fq, meta=rp, level="B")); continue
+            for k3, (ex3, (kind3, val3, p3)) in enumerate(third):
+                T3 = val3 if isinstance(val3, Text) else Text([val3]) if isinstance(val3, Tok) else Text([]) if val3 == "" else None
+                if kind3 != "return" or T3 is None or len(T3.toks) != len(T1.toks):
+                    goal = z3.BoolVal(False)
+                else:
+                    goal = z3.And(*[a.t == b.t for a, b in zip(T3.toks, T1.toks)]) if T1.toks else z3.BoolVal(True)
+                run.add(Obl(f"{fq}/print_again_gives_the_same_text{tag}.{k3}", p3.pc + shared.axioms + str_distinct(), goal, fn=fq, meta=rp, level="B"))
+            n_ok += 1
+    run.add(static(f"{fq}/round_trip_paths", n_ok > 0, f"{n_ok} print/parse path combination(s) analysed for a list of length {k}", fn=fq, level="B"))
+
+
 def build(run):
     run.assume("A-FMT", "A-STR", "A-SET", "A-PY", "A-MSG", "A-NP")
     src = run.src
@@ -284,6 +464,13 @@ def build(run):
         except Unsupported as ex_:
             run.add(undecided(f"defuzzifier.{c}/subset", f"outside the verified subset: {ex_}", fn=f"defuzzifier.{c}", meta=RP(f"fll-component:{c}")))
     verify_rule_weight(run)
+    # Linear / Discrete: parameter lists of bounded length (level B: complete for each length, the bound is on the length)
+    for cls, ks in (("Linear", (0, 1, 3)), ("Discrete", (1, 2, 3))):
+        for k in ks:
+            try:
+                list_term_roundtrip(run, cls, k)
+            except (Unsupported, MultiReturn) as ex_:
+                run.add(undecided(f"term.{cls}[{k}]/subset", f"outside the verified subset: {ex_}", fn=f"term.{cls}", meta=RP(f"fll-component:{cls}"), level="B"))
     b = 200 if run.tier == "quick" else 2000
     run.bounded("exporter.FllExporter+importer.FllImporter/round_trip.runtime", N_, "replay_fll_roundtrip", [dict(seed=run.seed, budget=b)],
                 bound=f"every registered term/norm/defuzzifier/activation/hedge on its own at decimals 1..9; {b} generated engines forming a covering array (every class, flags both ways, descriptions, infinite ranges, NaN defaults, non-unit heights and weights) at two decimals settings each: text fixed point, structural equality, exact outputs under the representability hypothesis; 61 shipped examples verbatim and reformatted + hand-written texts: one import/export cycle is a fixed point")
